@@ -4,7 +4,8 @@ from gen import rollcommon as rc
 from gen.rollcommon import model_lines, compare, classify, describe, extra_coverage, run_impl  # noqa: F401
 
 RULE = ("sweep: min_size in {0,1,2,100} x pre-existing active file in {absent, 0, min-1, min, min+1 bytes} x first "
-        "build in append/truncate mode x rollers {delete, window(base 0/1, count 0..3, plain/.gz)} x histories: "
+        "build in append/truncate mode x rollers {delete, window(base 0/1, count 0..3, plain/.gz), window with the "
+        "archives on ANOTHER file system} x histories: "
         "1-5 appends; appends + restart (either mode) + appends (a second lifetime over the files left behind); and a "
         "burst of 8 barrier-released threads issuing the first appends followed by sequential appends; "
         "for half of the combinations also a history whose first record(s) hit a roller set to FAIL (Roll::roll "
@@ -31,6 +32,10 @@ def rollers():
         for c in (0, 1, 2, 3):
             for gz in (0, 1):
                 out.append([1, b, c, gz])
+    # archives on another file system (a symlinked directory): rename is refused, move_file copies + deletes
+    for c in (1, 2):
+        for gz in (0, 1):
+            out.append([1, 0, c, gz, 3, 0])
     return out
 
 
